@@ -14,7 +14,7 @@ def jobs(tier, seed):
     if True:
         from ..core import split_job
 
-        for sh in ["G-DEAD", "G-DUP"] + (["G-FIN", "G-LIN", "G-S2"] if tier != "quick" else []):
+        for sh in ["G-DEAD", "G-DUP", "G-CAT", "G-S2"] + (["G-FIN", "G-LIN"] if tier != "quick" else []):
             for grp in (["trim", "cotrim", "cnf"], ["nullaryremove", "unarycycleremove"]):
                 extra += split_job(dict(case="structure", params=dict(shape=sh, strings=[], transforms=grp), hashseed=js[0]["hashseed"]), [0])
     return js + extra
